@@ -11,6 +11,7 @@ import WrglModel.Driver.C20
 import WrglModel.Driver.C15
 import WrglModel.Driver.C17
 import WrglModel.Driver.C05
+import WrglModel.Driver.C08
 open Lean Wrgl.Drv
 
 def dispatch (prop op : String) (input impl : Json) : Except String Json :=
@@ -26,6 +27,7 @@ def dispatch (prop op : String) (input impl : Json) : Except String Json :=
   | "C15" => handleC15 op input impl
   | "C17" => handleC17 op input impl
   | "C05" => handleC05 op input impl
+  | "C08" => handleC08 op input impl
   | "C18" => handleC18 op input impl
   | _ => .error s!"unknown property {prop}"
 
